@@ -16,6 +16,7 @@ def run(tier, seed):
     nsh = core.NCPU if tier == "thorough" else min(4, core.NCPU)
     cases, sums, notes = core.run_sharded(exe, "c07", seed, tier, nsh, timeout=3000)
     r.add_cases(cases, "native")
+    core.also_librel(r, tier, True, lambda exe2: core.run_sharded(exe2, "c07", seed, tier, nsh, timeout=3000))
     r.notes += notes
     r.observe("native", core.sum_dicts(sums))
     r.assumptions = ["two simultaneously live installations built by the same source line share one static by construction of the macro; the property speaks of earlier installations, so that case is not judged"]
@@ -25,7 +26,7 @@ def run(tier, seed):
 def replay(path):
     import subprocess
     rp = core.load_replay(path)
-    exe = core.build_native()
+    exe = core.build_native(libopt="librel" in str(rp.get("engine", "")))
     # a sequence is judged in the context of the earlier sequences of its process: replay the prefix
     p = subprocess.run([exe, "c07", "--seed", str(rp["seed"]), "--tier", rp["tier"]], stdout=subprocess.PIPE, text=True)
     bad = '"verdict":"violated"' in p.stdout or p.returncode != 0
